@@ -119,6 +119,10 @@ def select(live, sel):
     """Resolve a selector against the live leaf list (every generated history is valid by construction)."""
     kind, i = sel
     leaves = live.leaves()
+    if kind in ('last0', 'last1'):
+        # the children created by the most recent bisection are appended to the leaf collection:
+        # last0 = second (upper / right) child, last1 = first (lower / left) child
+        return leaves[-1] if kind == 'last0' or len(leaves) < 2 else leaves[-2]
     if kind != 'any':
         L, T = live.model.L, live.model.T
         def pred(e):
